@@ -11,7 +11,7 @@ import (
 func init() {
 	register(&Check{
 		ID: "C12", Level: "exploration", QuickSecs: 150, ThoroughSecs: 1200,
-		Rule:        "grammars without blocks; a scanning-idiom family (the same terminal matching under ! at several increasing offsets: skip-until loops, keyword guards; 108 grammars, inputs over {a,b,newline} up to 5); a nested-call family (128 grammars: the nested call before and after the outer call recorded its farthest failure; whose predicate block - reporting no error - calls Parse of the same package on 4 other inputs before returning); a terminal spelling family (20 terminals: literals of every quoting / escape form / i, classes with ranges, ^, i, escapes, Unicode classes, non-ASCII, the empty and the inverted empty class; alone, under !, in a choice, in a loop before !.); (2 generation flag sets; 4, adding -optimize-basic-latin, for grammars with classes) over terminals {'a',\"ab\",\"b\"i,[ab],[^a],.,\"\"} with !/& nesting up to depth 3, seq/choice, two-rune literals failing on the second rune, terminals starting at the same offset on different paths (N<=5 quick, 6 thorough); all inputs over {a,b,\\n,é} up to L=3 (4); for every NON-matching input the complete error (position line:col (offset) of the farthest failure and the sorted, de-duplicated expected list with !-prefixed entries and EOF last) is compared with the one derived from the reference interpreter's terminal-attempt list. Non-trivial = expected list has >= 2 entries or an inverted entry.",
+		Rule:        "grammars without blocks; a scanning-idiom family (the same terminal matching under ! at several increasing offsets: skip-until loops, keyword guards; 108 grammars, inputs over {a,b,newline} up to 5); a nested-call family (128 grammars: the nested call before and after the outer call recorded its farthest failure; whose predicate block - reporting no error - calls Parse of the same package on 4 other inputs before returning); a terminal spelling family (20 terminals: literals of every quoting / escape form / i, classes with ranges, ^, i, escapes, Unicode classes, non-ASCII, the empty and the inverted empty class; alone, under !, in a choice, in a loop before !.); (2 generation flag sets; 4, adding -optimize-basic-latin, for grammars with classes) over terminals {'a',\"ab\",\"b\"i,[ab],[^a],.,\"\"} with !/& nesting up to depth 3, seq/choice, two-rune literals failing on the second rune, terminals starting at the same offset on different paths (N<=5 quick, 6 thorough); all inputs over {a,b,\\n,é} up to L=3 (4); for every NON-matching input the complete error (position line:col (offset) of the farthest failure and the sorted, de-duplicated expected list with !-prefixed entries and EOF last) is compared with the one derived from the reference interpreter's terminal-attempt list. Non-trivial = expected list has >= 2 entries or an inverted entry. Plus left-recursive rules (bodies over {E,'a','b',!.} x {!,&,?} up to 4 nodes x 3 definitions of E, -support-left-recursion; finding D32) and the cross family (cross.go, 8 flag sets without -optimize-grammar).",
 		Assumptions: []string{"E1 loader", "reference failure tracking: failures under even predicate polarity, matches under odd polarity"},
 		Run:         runC12,
 	})
